@@ -378,19 +378,21 @@ def malformed : Family :=
 
 def showName (b : Bytes) : String := "s" ++ hexOf b
 
-/-- idx < 51: one supported oid with PostgreSQL's name as SPEC; then oids 100·k … 100·k+99, spec silent -/
+/-- idx < 3: seventeen supported oids each, PostgreSQL's names as SPEC; then idx 3..8: oids
+1000·k … 1000·k+999 (k = idx − 3; covers 0..5999), spec silent -/
 def typenamesGen (_seed idx _size : Nat) : Case :=
-  if idx < pgTypeNames.length then
-    let (oid, n) := pgTypeNames.getD idx (0, "")
-    { tags := ["fixed", "nt"], model := showName (Model.Scalars.typeName oid), spec := showName (Txt.asc n), args := [toString oid] }
+  if idx < 3 then
+    let es := (pgTypeNames.drop (17 * idx)).take 17
+    { tags := ["fixed", "nt"], model := joinWith ";" (es.map fun e => showName (Model.Scalars.typeName e.1)),
+      spec := joinWith ";" (es.map fun e => showName (Txt.asc e.2)), args := es.map fun e => toString e.1 }
   else
-    let k := idx - pgTypeNames.length
-    let oids := (List.range 100).map (· + 100 * k)
+    let k := idx - 3
+    let oids := (List.range 1000).map (· + 1000 * k)
     { tags := ["sweep", "nt"], model := joinWith ";" (oids.map fun o => showName (Model.Scalars.typeName o)), spec := "-",
       args := oids.map toString }
 
 def typenames : Family :=
-  { name := "typenames", gen := typenamesGen, fixed := pgTypeNames.length + 51,
+  { name := "typenames", gen := typenamesGen, fixed := 9,
     eval := fun args => joinWith ";" (args.map fun o => showName (Model.Scalars.typeName o.toNat!)) }
 
 def all : List Family := [ints, floats, texts, times, days, ids, bits, geo, ranges, raw, malformed, typenames]
